@@ -127,6 +127,30 @@ PROBES = [
 ]
 
 
+# member / element assignment changes exactly the targeted container: (program, expected text)
+PROTO = "def p = <*count = 0, items = [1], step = fn(self) do self->count += 1; self->count end*>; def a = <*_proto_ = p*>; def b = <*_proto_ = p*>; "
+TARGETED = [
+    (PROTO + "a->count += 1; [a->count, b->count, p->count]", "[1, 0, 0]"),
+    (PROTO + "a->count -= 2; a->count *= 3; [a->count, b->count, p->count]", "[-6, 0, 0]"),
+    (PROTO + "a['count'] += 5; [a->count, b->count, p->count]", "[5, 0, 0]"),
+    (PROTO + "a->count = 7; [a->count, b->count, p->count]", "[7, 0, 0]"),
+    (PROTO + "[a->step(), a->step(), b->step(), p->count]", "[1, 2, 1, 0]"),
+    (PROTO + "a->count /= 1; a->count %= 5; [a->count, b->count, p->count, ls(a) == ls(b)]", "[0, 0, 0, FALSE]"),
+    (PROTO + "p->count += 10; [a->count, b->count, p->count]", "[10, 10, 10]"),
+    (PROTO + "a->items += [2]; [a->items, b->items, p->items]", "[[1, 2], [1], [1]]"),
+    (PROTO + "append(a->items, 2); [a->items, b->items, p->items]", "[[1, 2], [1, 2], [1, 2]]"),          # shared by reference
+    (PROTO + "def c = <*_proto_ = a*>; c->count += 1; [c->count, a->count, p->count]", "[1, 0, 0]"),
+    ("def m = <<<'k' => 1>>>; def n = m; n['k'] += 1; [m, n]", "[<<<'k' => 2>>>, <<<'k' => 2>>>]"),
+    ("def l = [[1], [1]]; l[0][0] += 1; l", "[[2], [1]]"),
+    ("def inner = [1]; def l = [inner, inner]; l[0][0] += 1; [l, inner]", "[[[2], [2]], [2]]"),
+    ("def l = [1, 2]; def f(items...) do append(items..., 99); items... end; [f(...l), l]", "[[1, 2, 99], [1, 2]]"),
+    ("def l = [1, 2]; def keep = NULL; def f(items...) do keep = items...; 0 end; f(...l); append(l, 3); [keep, l]", "[[1, 2], [1, 2, 3]]"),
+    ("def l = [1, 2]; apply(fn(args...) append(args..., 9), l); l", "[1, 2]"),
+    ("def s = <<1, 2>>; def f(items...) do append(items..., 99); items... end; [f(...s), s]", "[[1, 2, 99], <<1, 2>>]"),
+    ("def m = <<<'a' => 1>>>; def f(a = 0, rest...) do a += 1; [a, rest...] end; [f(...m), m]", "[[2, []], <<<'a' => 1>>>]"),
+]
+
+
 def run_probes(spec, ctx):
     import ckl.functions
     it, out = core.new_interpreter(secure=True, legacy=True)
@@ -134,6 +158,16 @@ def run_probes(spec, ctx):
     def ev(src):
         env = ckl.functions.Environment()
         return observe(lambda: it.interpret(src, "c16", env), BUDGET)
+
+    for src, want in TARGETED:
+        o = ev(src)
+        ctx.count("probe_evaluations")
+        ctx.count("targeted_assignment_programs")
+        ctx.case(("targeted", src))
+        if o.kind != "value":
+            ctx.violation("C16:targeted-assignment:error", "%s -> %s %s" % (src, o.kind, core.safe_str(o.exc, 100)), {"src": src})
+        elif core.safe_str(o.value, 300) != want:
+            ctx.violation("C16:targeted-assignment", "%s -> %s, exactly the targeted container changes: %s" % (src, core.safe_str(o.value, 300), want), {"src": src})
 
     for name, setup, expr, mut, inputs in PROBES:
         ins = "[" + ", ".join("string(%s)" % v for v in inputs) + "]"
@@ -420,6 +454,8 @@ def run_shard(spec, ctx):
         def gen():
             i = -1
             for callee, k, prog, names in matrix.form_cases():
+                if callee.endswith("-in-callback") or callee.endswith("-mutating-key"):
+                    continue      # there the program's own callback changes the argument while the library call runs
                 if len(names) == 3:
                     h = core.stable_hash(callee, names, ctx.seed) % 21952
                     if h >= (400 if ctx.tier == "quick" else 4000):
